@@ -138,8 +138,8 @@ let huff_c (side : string) : bytes -> nat -> bytes option =
 let huff_d (side : string) : bytes -> nat -> bytes option =
   fun y cap ->
     let s = huff_side side in
-    (* a capacity error means decoding until the buffer is full: check only every 16th of those *)
-    let sample = (match s with Some d -> List.length d <= 400 | None -> (incr none_seen; !none_seen land 15 = 0)) in
+    (* a capacity error means decoding until the buffer is full: check only every 256th of those *)
+    let sample = (match s with Some d -> List.length d <= 400 | None -> (incr none_seen; !none_seen land 255 = 0)) in
     if List.length y <= cross_limit && sample
        && PacketInst.tw_decomp y cap <> s then failwith "huffman model disagrees (decompress)";
     s
@@ -341,10 +341,10 @@ let run = function
   | ["w7"; cap; p; side] -> wres_txt7 (Packet7.write7_full (huff_c side) (parse7 p) (ni cap))
   | ["r6"; hint; cap; h; side] -> rres_txt6 (Packet6.read6 (huff_d side) (unhex h) (hint_of hint) (ni cap))
   | ["rp6"; hint; h] -> rres_txt6 (Packet6.read_nodecomp6 (unhex h) (hint_of hint))
-  | ["rD6"; hint; cap; h] ->
+  | ["rD6"; hint; cap; h; side] ->
     let pre = unhex h and b = Buffer.create 16384 in
     for v = 0 to 255 do
-      Buffer.add_string b (rres_txt6 (Packet6.read6 (huff_d ".") (pre @ [z_of_int v]) (hint_of hint) (ni cap)));
+      Buffer.add_string b (rres_txt6 (Packet6.read6 (huff_d side) (pre @ [z_of_int v]) (hint_of hint) (ni cap)));
       Buffer.add_char b ';'
     done;
     Printf.sprintf "%08x" (fnv (Buffer.contents b))
